@@ -534,11 +534,11 @@ def run_check(prop, tier, master, workers, runs_override=None, write=True):
             raise HarnessError(f"worker failure: {type(e).__name__}: {e}") from e
 
     lines_reached = None
-    nsample = getattr(mod, "TRACE_SAMPLE", 300)
+    nsample = getattr(mod, "TRACE_SAMPLE", 200)
     if nsample:
         with ProcessPoolExecutor(max_workers=1, mp_context=ctx, initializer=_worker_init, initargs=(prop, watchdog)) as pool:
             try:
-                lines_reached = pool.submit(_trace_sample, (prop, master, tier, min(nsample, nruns))).result(timeout=600)
+                lines_reached = pool.submit(_trace_sample, (prop, master, tier, min(nsample, nruns))).result(timeout=1800)
             except Exception as e:
                 raise HarnessError(f"trace sample failed: {type(e).__name__}: {e}") from e
 
